@@ -7,14 +7,14 @@ Import ListNotations.
 Local Open Scope N_scope.
 
 (* the resolved form of a resource depends only on its own definition and on the environment: it is present iff its gate is
-   open, and then it is [resolve e] of its own definition -- whatever other resources exist *)
+   open, and then it is [resolve_resource e] (resolution, literal Type kept) of its own definition -- whatever other resources exist *)
 Theorem C07_resource_local : forall e resolved rs rs', resolve_resources e resolved rs = Ok rs' -> NoDup (keys rs) ->
   forall id,
     match lookup id rs with
     | None => lookup id rs' = None
     | Some r =>
         match gate resolved r with
-        | Ok true => exists r', resolve e r = Ok r' /\ lookup id rs' = Some r'
+        | Ok true => exists r', resolve_resource e r = Ok r' /\ lookup id rs' = Some r'
         | Ok false => lookup id rs' = None
         | Err _ => False
         end
